@@ -1,5 +1,8 @@
 """C09 — EECC (gcmpy/covers/eecc.py) vs the Gallina model (Model/Eecc.v).
 
+The graph reaches the object through every public construction path (`_feed`); graphs beyond the reach of the
+brute-force model (mode 'big') are judged by the verified exact-cover checker alone (`c09_check_cover`).
+
 Every tie-break of the greedy loop is scripted BY CONTENT: `gcmpy.covers.eecc.choice` is replaced by a
 function that reads the clique list `C` from the caller's frame, sorts the offered candidate cliques
 lexicographically and returns the index of the r-th one (r from the script, modulo the number of
@@ -12,17 +15,29 @@ import sys
 from harness import oracles
 
 ID = "C09"
-RULE = ("case = (edge list of a simple graph in arbitrary order/orientation, m0, tie-break ranks); mode 'all' walks "
+RULE = ("case = (edge list of a simple graph in arbitrary order/orientation, m0, tie-break ranks, construction paths); the "
+        "graph reaches the EECC object through every public path - add_edges_from, add_edge, the G setter with a prebuilt "
+        "nx.Graph (vertices inserted in an order unrelated to labels, attribute data; or nx.Graph(edge list)), mutation "
+        "through the G getter (as the library's EdgeListToNetwork does), re-assignment of G on an object holding other "
+        "contents, mixtures of these over chunks of the edge list, edges handed over twice, the bound set before the graph "
+        "(about half of the fresh-object cases use another path than one add_edges_from); mode 'all' walks "
         "EVERY tie-break sequence of the real code (depth-first over the candidate counts it reports) and compares each "
         "leaf; mode 'hist' is a history of calls on one or two EECC objects (cliques queried, returned value damaged by "
-        "the caller, graph extended, m0 changed, get_EECC, graph rebuilt on the same object, get_EECC again), every call "
-        "judged against the model on the CURRENT contents; compared per run: find_cliques() as a sorted list, "
+        "the caller, graph extended through any construction path, m0 changed, get_EECC, graph rebuilt on the same object "
+        "by adding edges or by assigning a prebuilt graph to G, get_EECC again), every call "
+        "judged against the model on the CURRENT contents; mode 'big' is the CHECKER-ONLY stream: sparse graphs with "
+        "25-80 (a share up to 160) vertices, planted overlapping cliques K3-K8 plus many separate cliques (so that nearly "
+        "the whole clique list is dropped by the score-zero pass and the survivors sit at large spread-out positions), "
+        "m0 in 2..9 around the clique number, three tie-break schedules per graph, no model run (the brute force cannot "
+        "enumerate their maximal cliques): the cover is judged by the verified c09_check_cover (exact_cover_b + working "
+        "graph empty; the isolated-maximal-clique clause is NOT judged on this stream); compared per run: find_cliques() as a sorted list, "
         "limited_maximal_cliques() as a sorted list (duplicates visible), the sorted candidate cliques offered to the "
         "tie-break in every round, the cover as a multiset, has_edges() and the vertex set afterwards, that the edge list "
         "handed in is untouched, the exception class for m0 < 2 / isolated vertices; when the tie-break is drawn with "
         "another random primitive than choice(indexes) the cover must be one of the outcomes the model enumerates; "
         "non-trivial = a run with a tie between >= 2 candidates or with a maximal clique larger than m0 "
-        "(decomposition), or a history with a non-empty cover; distinct by (edges, m0, ranks/mode) or the step list")
+        "(decomposition), or a history with a non-empty cover, or a 'big' run with at least one greedy round; distinct by "
+        "(edges, m0, ranks/mode) or the step list")
 EXHAUSTIVE = {"quick": False, "thorough": True}
 EXPLANATION = ("GENERAL theorem C09_exact_cover_general / C09_full_holds: all loop-free graphs, all m0 >= 2, all tie-break "
                "schedules (invariant of the greedy loop); checker soundness general; additionally by reflection over all "
@@ -30,7 +45,12 @@ EXPLANATION = ("GENERAL theorem C09_exact_cover_general / C09_full_holds: all lo
                "checker.  Correspondence: thorough = all 1024 graphs on <= 5 labelled vertices x m0 in 2..5 x all "
                "tie-break sequences, quick = a seeded quarter of those; plus 6-vertex graphs with every tie-break (capped), "
                "random graphs to 12 vertices with planted overlapping cliques and m0 below / at / above the clique "
-               "number, histories on shared objects, and the malformed stream (m0 < 2, empty graph, isolated vertices)")
+               "number, histories on shared objects, and the malformed stream (m0 < 2, empty graph, isolated vertices); "
+               "every stream feeds the graph through all public construction paths; beyond the model's reach (25-160 "
+               "vertices) the implementation's covers are judged by the verified exact-cover checker alone "
+               "(c09_check_cover; C09_check_cover_entry_sound ties its answer to the Prop-level ExactCover of the simple "
+               "graph handed over, C09_norm_graph_spec says which graph that is) - 210 such runs in the quick tier, 2100 "
+               "in the thorough tier; that stream is sampled, not exhaustive, and does not judge IsolatedIntact")
 ASSUMPTIONS = [
     "CPython float arithmetic is IEEE-754 binary64 with round-to-nearest-even (the model's fl_round); validated on "
     "every run against the float sums the interpreter computes (c09_fl)",
@@ -52,9 +72,13 @@ LEVEL_TEXT = (
     "implementation's covers - are equivalent to these Prop-level specifications, the brute-force maximal-clique "
     "enumeration is sound and complete; (general) every scripted run is among the outcomes of eecc_all; (bounded, "
     "vm_compute, C09_exact_cover_upto_5) all 1024 edge subsets of K5 x m0 in 2..6 x every tie-break sequence pass the "
-    "executable checker.  The model (float-faithful scores, content-keyed tie-breaks) is tied to "
+    "executable checker; (general, wire level) C09_norm_graph_spec - the graph the checker entries judge is exactly the "
+    "simple graph of the edge list handed over; C09_check_cover_entry_sound / _empty / _agrees - the checker-only entry "
+    "c09_check_cover answers 1 exactly when ExactCover holds for that graph / the working graph was reported empty, and "
+    "its answers are the first two of c09_check.  The model (float-faithful scores, content-keyed tie-breaks) is tied to "
     "gcmpy/covers/eecc.py + network.py by the correspondence described in `rule`; the verified checker c09_check "
-    "judges every cover the implementation returns.")
+    "judges every cover the implementation returns on graphs within the model's reach (<= 12 vertices), c09_check_cover "
+    "(the exact-cover clauses without IsolatedIntact) the covers of the sampled 25-160 vertex graphs.")
 LEVEL_NOTE = ("Trusted: Coq kernel (+ vm_compute for the bounded theorem only); extraction + OCaml driver + harness for "
               "the correspondence; networkx find_cliques modelled not verified (compared on every case); binary64 "
               "rounding model validated against the interpreter on every run.")
@@ -193,41 +217,131 @@ def _eecc_call(net, ranks, nedges):
             "nodes_after": sorted(int(v) for v in net.G.nodes())}, cover
 
 
-def _run_once(edges, m0, ranks, labels=None):
+# ------------------------------------------------------------------ construction paths
+# every public way a graph reaches an EECC object (the property is about the graph the object holds, not about how it
+# got there): the two mutators of Network, the `G` setter with a prebuilt nx.Graph (how the library hands graphs
+# around), mutation through the `G` getter (how the library's own EdgeListToNetwork fills a Network), and
+# re-assignment of G on an object that already holds other contents
+BUILD_PATHS = ["aef", "ae", "set", "setc", "get", "gete", "reset"]
+JUNK = 2000003
+
+
+def _chunks(seq, k):
+    n = len(seq)
+    return [seq[i * n // k:(i + 1) * n // k] for i in range(k)]
+
+
+def _prebuilt(net, chunk, ctor=False, keep=True):
+    """an nx.Graph holding what `net` holds now (when `keep`) plus `chunk`; vertices inserted in an order unrelated to
+    their labels, vertices / edges / graph carrying attribute data"""
+    import networkx as nx
+    old_nodes = list(net.G.nodes()) if keep else []
+    old_edges = list(net.G.edges()) if keep else []
+    if ctor:
+        g = nx.Graph(old_edges + [tuple(e) for e in chunk])
+        g.add_nodes_from(old_nodes)
+        return g
+    g = nx.Graph(name="prebuilt")
+    seen = set(old_nodes)
+    nodes = list(old_nodes)
+    for e in chunk:
+        for v in e:
+            if v not in seen:
+                seen.add(v)
+                nodes.append(v)
+    for i, v in enumerate(reversed(nodes)):
+        g.add_node(v, tag=("n", i))
+    for i, e in enumerate(old_edges + [tuple(e) for e in chunk]):
+        g.add_edge(e[0], e[1], w=i)
+    return g
+
+
+def _feed(net, chunk, path):
+    """hand the edges of `chunk` (list of tuples) to `net` through one public path; what the object held before
+    stays (for the paths that assign a new graph it is copied into the new graph)"""
+    if path == "aef":
+        net.add_edges_from(chunk)
+    elif path == "ae":
+        for e in chunk:
+            net.add_edge(e)
+    elif path == "get":
+        net.G.add_edges_from(chunk)
+    elif path == "gete":
+        for e in chunk:
+            net.G.add_edge(e[0], e[1])
+    elif path in ("set", "setc"):
+        net.G = _prebuilt(net, chunk, ctor=(path == "setc"))
+    elif path == "reset":
+        # other contents arrive through the mutators first, then the whole graph is replaced by assignment
+        g = _prebuilt(net, chunk)
+        vs = sorted({v for e in chunk for v in e})
+        net.add_edges_from([(vs[0], JUNK), (JUNK, JUNK + 1), (vs[0], JUNK + 1)] + [(e[1], e[0]) for e in chunk[:2]])
+        net.add_edge((JUNK + 1, JUNK + 2))
+        net.G = g
+    else:
+        raise ValueError(f"unknown construction path {path}")
+
+
+def _run_once(edges, m0, ranks, labels=None, build=None, big=False, dup=False):
     """one fresh object; `labels` (strictly increasing ints, vertex i -> labels[i]) relabels the graph handed to the
-    implementation order-preservingly (non-contiguous / large / negative labels); observations are mapped back"""
+    implementation order-preservingly (non-contiguous / large / negative labels); observations are mapped back;
+    `build` = the construction paths, one per consecutive chunk of the edge list (default: one add_edges_from);
+    `big` = no clique queries before get_EECC (checker-only stream)"""
     import copy
     import gcmpy.covers.eecc as E
+    build = list(build or ["aef"])
     fwd = (lambda v: labels[v]) if labels else (lambda v: v)
     inv = {l: i for i, l in enumerate(labels)} if labels else None
     net = E.EECC()
-    given = [tuple(fwd(v) for v in e) for e in edges]
+    given = _chunks([tuple(fwd(v) for v in e) for e in edges], len(build))
     keep = copy.deepcopy(given)
-    net.add_edges_from(given)
+    if build[0] == "late":
+        # the bound is set before the graph arrives
+        net.set_max_clique_size(m0)
+        build = build[1:] or ["aef"]
+        given = _chunks([e for ch in given for e in ch], len(build))
+        keep = copy.deepcopy(given)
+    for ch, path in zip(given, build):
+        if ch:
+            _feed(net, ch, path)
+    if dup and edges:
+        # edges the graph already has are handed over again (other orientation, each mutator): contents unchanged
+        flat = [e for ch in given for e in ch]
+        for e in flat[:3]:
+            net.add_edge((e[1], e[0]))
+        net.add_edges_from([(e[1], e[0]) for e in flat[-3:]] + flat[:1])
     net.set_max_clique_size(m0)
-    # a second object with other contents and another bound stays alive while the first is read
+    # a second object with other contents and another bound, built through another path, stays alive while the first is read
     decoy = E.EECC()
-    decoy.add_edges_from([(fwd(0) + 1000003, fwd(0) + 1000004), (fwd(0) + 1000004, fwd(0) + 1000005),
-                          (fwd(0) + 1000003, fwd(0) + 1000005)] if edges else [(1000003, 1000004)])
+    dch = ([(fwd(0) + 1000003, fwd(0) + 1000004), (fwd(0) + 1000004, fwd(0) + 1000005),
+            (fwd(0) + 1000003, fwd(0) + 1000005)] if edges else [(1000003, 1000004)])
+    _feed(decoy, dch, "set" if build[0] in ("aef", "ae") else "aef")
     decoy.set_max_clique_size(m0 + 1)
-    with _patched(RankScript([], 10)):
-        mc = sorted(sorted(int(v) for v in c) for c in net.find_cliques())
-        lim = _canon_cliques(net.limited_maximal_cliques())
-        decoy.limited_maximal_cliques()
+    mc = lim = None
+    if not big:
+        with _patched(RankScript([], 10)):
+            mc = sorted(sorted(int(v) for v in c) for c in net.find_cliques())
+            lim = _canon_cliques(net.limited_maximal_cliques())
+            decoy.limited_maximal_cliques()
     obs, _ = _eecc_call(net, ranks, len(edges))
-    obs["maxcliques"] = mc
-    obs["limited"] = lim
+    if not big:
+        obs["maxcliques"] = mc
+        obs["limited"] = lim
     obs["input_unchanged"] = int(given == keep)
     obs["decoy_edges"] = int(decoy.G.number_of_edges())
     if inv is not None:
         def back(cs):
-            return sorted(sorted(inv[v] for v in c) for c in cs)
+            # a label the graph never had stays recognisable (and is rejected by the checker as a non-vertex)
+            return sorted(sorted(inv.get(v, 100000 + abs(v)) for v in c) for c in cs)
         obs["cover"] = back(obs["cover"])
-        obs["maxcliques"] = back(mc)
-        obs["limited"] = back(lim)
-        obs["nodes_after"] = sorted(inv[v] for v in obs["nodes_after"])
+        if not big:
+            obs["maxcliques"] = back(mc)
+            obs["limited"] = back(lim)
+        obs["nodes_after"] = sorted(inv.get(v, 100000 + abs(v)) for v in obs["nodes_after"])
         if obs["rounds"] is not None:
-            obs["rounds"] = [[[inv[v] for v in c] for c in r] for r in obs["rounds"]]
+            obs["rounds"] = [[[inv.get(v, 100000 + abs(v)) for v in c] for c in r] for r in obs["rounds"]]
+    if big:
+        obs["rounds"] = None          # not compared (no model run); keeps the replay file small
     return obs
 
 
@@ -243,6 +357,10 @@ def _contents(steps):
             new = {(min(a, b), max(a, b)) for a, b in st[2]}
             es = es | new
             nodes = nodes | {v for e in new for v in e}
+        elif st[0] == "setg":
+            # the whole graph is replaced by assignment: nothing of the old contents (not even its vertices) stays
+            es = {(min(a, b), max(a, b)) for a, b in st[2]}
+            nodes = {v for e in es for v in e}
         elif st[0] == "m0":
             m0 = st[2]
         elif st[0] == "eecc":
@@ -260,7 +378,10 @@ def _run_history(steps):
             objs[o] = E.EECC()
         net = objs[o]
         if st[0] == "add":
-            net.add_edges_from([tuple(e) for e in st[2]])
+            _feed(net, [tuple(e) for e in st[2]], st[3] if len(st) > 3 else "aef")
+            out.append(None)
+        elif st[0] == "setg":
+            net.G = _prebuilt(net, [tuple(e) for e in st[2]], ctor=bool(len(st) > 3 and st[3]), keep=False)
             out.append(None)
         elif st[0] == "m0":
             net.set_max_clique_size(st[2])
@@ -315,8 +436,9 @@ def impl(case):
         return _run_history(case["steps"])
     edges, m0 = case["edges"], case["m0"]
     labels = case.get("labels")
+    build, dup = case.get("build"), bool(case.get("dup"))
     if mode != "all":
-        return _run_once(edges, m0, case.get("ranks", []), labels)
+        return _run_once(edges, m0, case.get("ranks", []), labels, build, big=(mode == "big"), dup=dup)
     # walk every tie-break sequence of the real code: each run follows `prefix` and then rank 0 to the end, which
     # is one leaf; its siblings at every depth beyond the prefix are pushed
     leaves = []
@@ -324,7 +446,7 @@ def impl(case):
     cap = case.get("cap", LEAF_CAP)
     while stack and len(leaves) < cap:
         prefix = stack.pop()
-        obs = _run_once(edges, m0, prefix, labels)
+        obs = _run_once(edges, m0, prefix, labels, build, dup=dup)
         counts = obs["counts"]
         full = prefix + [0] * (len(counts) - len(prefix))
         leaves.append([full, obs])
@@ -380,6 +502,8 @@ def model_calls(case, impl_obs):
             else:
                 calls.append(("c09_lim", [es, m0, iso]))
         return calls
+    if mode == "big":
+        return []            # checker-only stream: the brute-force model cannot enumerate the maximal cliques of these graphs
     lv = _leaves(case, impl_obs)
     if not lv:
         lv = [(case.get("ranks", []), None)]
@@ -412,6 +536,8 @@ def model_obs(case, raws):
         if len(raws) != len(obs_steps):
             return []
         return [_dec(r) if st[0] == "eecc" else r for st, r in zip(obs_steps, raws)]
+    if mode == "big":
+        return []
     out = []
     for r in raws:
         if isinstance(r, list) and (r == [] or isinstance(r[0], list)):  # c09_all: list of (status cover)
@@ -432,12 +558,9 @@ def _cmp_one(a, b, where, edges, alls=None):
     for k in keys:
         if a[k] != b[k]:
             return f"{where}: {k}: impl {a[k]} model {b[k]}"
-    if a["has_edges_api"] != a["has_edges"]:
-        return f"{where}: has_edges() says {a['has_edges_api']} but the working graph has {'some' if a['has_edges'] else 'no'} edges"
-    if a.get("input_unchanged", 1) != 1:
-        return f"{where}: the edge list handed to add_edges_from was modified"
-    if a.get("decoy_edges", 3) not in (1, 3):
-        return f"{where}: a second EECC object alive at the same time lost / gained edges ({a.get('decoy_edges')})"
+    d = _cmp_self(a, where)
+    if d:
+        return d
     if a["keyed"]:
         if [sorted(r) for r in a["rounds"]] != b["rounds"]:
             return f"{where}: candidates offered to the tie-break: impl {a['rounds']} model {b['rounds']}"
@@ -446,6 +569,18 @@ def _cmp_one(a, b, where, edges, alls=None):
     elif alls is not None:
         if a["cover"] not in alls["all"]:
             return f"{where}: cover {a['cover']} is none of the {len(alls['all'])} outcomes the model reaches (position-keyed tie-break)"
+    return None
+
+
+def _cmp_self(a, where):
+    """the observations that need no model: has_edges() against the working graph itself, the edge lists handed in
+    untouched, the second object alive at the same time undisturbed"""
+    if a["has_edges_api"] != a["has_edges"]:
+        return f"{where}: has_edges() says {a['has_edges_api']} but the working graph has {'some' if a['has_edges'] else 'no'} edges"
+    if a.get("input_unchanged", 1) != 1:
+        return f"{where}: the edge list handed to the construction path was modified"
+    if a.get("decoy_edges", 3) not in (1, 3):
+        return f"{where}: a second EECC object alive at the same time lost / gained edges ({a.get('decoy_edges')})"
     return None
 
 
@@ -480,6 +615,15 @@ def compare(case, impl_obs, model):
                 want = mo[0] if st[0] == "mc" else mo[1]
                 if ob != sorted(want):
                     return f"{where}: impl {ob} model {sorted(want)}"
+        return None
+    if mode == "big":
+        if _is_exc(impl_obs):
+            return f"implementation raised {impl_obs[1]} (checker-only stream, no model run)"
+        d = _cmp_self(impl_obs, f"ranks {case.get('ranks', [])}")
+        if d:
+            return d
+        if impl_obs["nodes_after"] != sorted({v for e in case["edges"] for v in e}):
+            return f"vertex set afterwards {impl_obs['nodes_after']}"
         return None
     if _is_exc(impl_obs):
         if len(model) >= 1 and _is_exc(model[0]) and model[0][1] == impl_obs[1]:
@@ -525,17 +669,19 @@ def check_calls(case, impl_obs):
         return [("c09_check", [es, m0, ob["cover"], ob["has_edges"]])
                 for st, (es, iso, m0), ob in _hist_obs_steps(case, impl_obs)
                 if st[0] == "eecc" and not iso and m0 >= 2 and not _is_exc(ob)]
-    return [("c09_check", [case["edges"], case["m0"], ob["cover"], ob["has_edges"]]) for _, ob in _leaves(case, impl_obs)]
+    entry = "c09_check_cover" if mode == "big" else "c09_check"
+    return [(entry, [case["edges"], case["m0"], ob["cover"], ob["has_edges"]]) for _, ob in _leaves(case, impl_obs)]
 
 
 CHECK_NAMES = ["exact_cover_b (members are cliques of the input with 2..m0 vertices, every edge in exactly one)",
                "working graph empty afterwards", "isolated maximal cliques of size <= m0 returned intact"]
 
 
-def _verdict_one(r, where, cover):
-    if r != [1, 1, 1]:
-        bad = [n for n, b in zip(CHECK_NAMES, r if isinstance(r, list) else [0, 0, 0]) if b != 1]
-        return f"c09_check rejected the cover returned {where}: violated: {'; '.join(bad)}; cover {cover}"
+def _verdict_one(r, where, cover, nclauses=3):
+    if r != [1] * nclauses:
+        bad = [n for n, b in zip(CHECK_NAMES, r if isinstance(r, list) and len(r) == nclauses else [0] * nclauses) if b != 1]
+        return (f"{'c09_check' if nclauses == 3 else 'c09_check_cover'} rejected the cover returned {where}: "
+                f"violated: {'; '.join(bad)}; cover {cover}")
     return None
 
 
@@ -565,7 +711,7 @@ def check_verdict(case, impl_obs, raws):
     if case["m0"] < 2:
         return None
     for (rk, ob), r in zip(_leaves(case, impl_obs), raws):
-        d = _verdict_one(r, f"under ranks {rk}", ob["cover"])
+        d = _verdict_one(r, f"under ranks {rk}", ob["cover"], 2 if mode == "big" else 3)
         if d:
             return d
     return None
@@ -581,7 +727,8 @@ def nontrivial_key(case, impl_obs):
     if not _valid(case):
         return None
     for _, ob in _leaves(case, impl_obs):
-        if any(n >= 2 for n in ob["counts"]) or any(len(c) > case["m0"] for c in ob["maxcliques"]):
+        if any(n >= 2 for n in ob["counts"]) or any(len(c) > case["m0"] for c in ob.get("maxcliques", [])) \
+                or (mode == "big" and len(ob["counts"]) >= 1):
             return [case["edges"], case["m0"], case.get("mode", "one"), case.get("ranks", [])]
     return None
 
@@ -606,9 +753,23 @@ def _scramble(rng, es):
     return es
 
 
+def _pick_path(rng):
+    return "aef" if rng.random() < 0.35 else rng.choice(BUILD_PATHS)
+
+
+def _pick_build(rng):
+    """construction paths of a fresh object: one path for the whole edge list, or a mixture over 2-3 chunks;
+    sometimes the bound is set before the graph arrives"""
+    b = [_pick_path(rng) for _ in range(rng.choice([1, 1, 2, 3]))]
+    if rng.random() < 0.1:
+        b = ["late"] + b
+    return b
+
+
 def _history(rng):
     """a history of calls on one or two EECC objects: cliques queried, the returned value damaged by the caller, the
-    graph extended, m0 changed, get_EECC, the graph rebuilt on the same object and get_EECC again"""
+    graph extended (through any construction path), m0 changed, get_EECC, the graph rebuilt on the same object (edges
+    added again, or a prebuilt graph assigned to G) and get_EECC again"""
     per = {}
     for o in ([0, 1] if rng.random() < 0.5 else [0]):
         es = []
@@ -619,12 +780,12 @@ def _history(rng):
         w = _clique_number(es)
         if rng.random() < 0.3:
             k = 1
-        st = [["add", o, es[:k]], ["he", o], ["m0", o, max(2, rng.choice([2, w - 1, w, w + 1]))]]
+        st = [["add", o, es[:k], _pick_path(rng)], ["he", o], ["m0", o, max(2, rng.choice([2, w - 1, w, w + 1]))]]
         st.append([rng.choice(["mc", "lim"]), o])
         if rng.random() < 0.6:
             st.append(["damage", o])
         if k < len(es):
-            st.append(["add", o, es[k:]])
+            st.append(["add", o, es[k:], _pick_path(rng)])
         st.append([rng.choice(["mc", "lim"]), o])
         if rng.random() < 0.5:
             st += [["m0", o, max(2, rng.choice([2, 3, w - 1, w]))], ["lim", o]]
@@ -647,7 +808,19 @@ def _history(rng):
                 es2.append((min(u, v), max(u, v)))
                 touched |= {u, v}
         es2 = _scramble(rng, _canon_edges(es2))
-        st.append(["add", o, es2])
+        if rng.random() < 0.35:
+            # a prebuilt graph is assigned to G of the used object (its old vertices go with the old graph)
+            es3 = []
+            while not es3:
+                es3 = _random_graph(rng, nmax=7)
+            st.append(["setg", o, _scramble(rng, es3), rng.randint(0, 1)])
+            if rng.random() < 0.3:
+                st.append(["he", o])
+        else:
+            k2 = rng.randint(1, len(es2))
+            st.append(["add", o, es2[:k2], _pick_path(rng)])
+            if k2 < len(es2):
+                st.append(["add", o, es2[k2:], _pick_path(rng)])
         if rng.random() < 0.5:
             st.append(["lim", o])
         st.append(["eecc", o, [rng.randint(0, 5) for _ in range(rng.randint(0, 8))]])
@@ -660,8 +833,12 @@ def _history(rng):
     return {"mode": "hist", "steps": steps}
 
 
-def _case(es, m0, ranks=None, mode=None, cap=None, rng=None):
+def _case(es, m0, ranks=None, mode=None, cap=None, rng=None, build=None, dup=False):
     c = {"edges": [list(e) for e in _canon_edges(es)], "m0": m0}
+    if build:
+        c["build"] = list(build)
+    if dup:
+        c["dup"] = 1
     if rng is not None:
         c["edges"] = _scramble(rng, c["edges"])
         if rng.random() < 0.5 and c["edges"]:
@@ -675,7 +852,7 @@ def _case(es, m0, ranks=None, mode=None, cap=None, rng=None):
         c["mode"] = mode
         if cap:
             c["cap"] = cap
-    else:
+    if not mode or mode == "big":
         c["ranks"] = list(ranks or [])
     return c
 
@@ -714,6 +891,29 @@ def corpus():
         ["add", 0, [[0, 1], [0, 2], [1, 2], [2, 3]]], ["add", 1, [[5, 6], [6, 7], [5, 7], [4, 5], [4, 6], [4, 7]]],
         ["m0", 0, 3], ["m0", 1, 3], ["lim", 1], ["lim", 0], ["mc", 1], ["eecc", 1, [2]], ["eecc", 0, []],
         ["add", 1, [[4, 5], [6, 7], [4, 6]]], ["lim", 1], ["eecc", 1, []]]})
+    # every public construction path (and mixtures, edges handed twice, the bound set first) on graphs with overlap
+    tt = [[1, 2], [1, 3], [2, 3], [2, 4], [3, 4]]
+    for b in [[x] for x in BUILD_PATHS] + [["set", "ae"], ["aef", "reset", "get"], ["late", "setc"], ["gete", "set", "aef"]]:
+        out.append(_case(tt, 3, mode="all", build=b))
+        out.append(_case(design, 3, [1, 0, 2], build=b, dup=(len(b) > 1)))
+    out.append({"mode": "hist", "steps": [
+        ["add", 0, [[0, 1], [1, 2], [0, 2]], "set"], ["add", 0, [[1, 3], [2, 3]], "ae"], ["m0", 0, 3], ["he", 0],
+        ["eecc", 0, [1]], ["he", 0], ["setg", 0, [[4, 5], [5, 6], [4, 6], [5, 7], [6, 7]], 0], ["he", 0], ["lim", 0],
+        ["eecc", 0, [0]], ["setg", 0, [[1, 0], [2, 1], [0, 2], [3, 1], [2, 3], [0, 3]], 1], ["m0", 0, 2], ["eecc", 0, []],
+        ["add", 0, [[0, 1], [1, 2], [0, 2]], "get"], ["add", 0, [[2, 3], [1, 3], [0, 3]], "reset"], ["m0", 0, 3],
+        ["eecc", 0, [2, 1]]]})
+    # checker-only: separate K5 / K4 (taken by the score-zero pass) around two K5 sharing a triangle and two K4
+    # sharing an edge - survivors with large, spread-out positions in the clique list
+    big, nxt = [], 0
+    for k, sh in [(5, 0), (5, 0), (5, 3), (4, 0), (4, 0), (4, 0), (4, 0), (4, 2), (3, 0), (6, 0), (3, 1)]:
+        big += _kn(range(nxt, nxt + k))
+        if sh:
+            big += _kn(list(range(nxt + k - sh, nxt + 2 * k - sh)))
+            nxt += k - sh
+        nxt += k
+    for m0, rk, b in [(5, [], None), (5, [1, 1, 1, 1], ["set"]), (6, [0, 1, 0, 1], None), (3, [2, 5, 1, 7, 3], ["ae", "get"]),
+                      (4, [], None), (2, [], ["reset"])]:
+        out.append(_case(big, m0, rk, mode="big", build=b))
     out += [{"edges": [[0, 1]], "m0": 1, "ranks": []}, {"edges": [[0, 1], [1, 2]], "m0": 0, "ranks": []},
             {"edges": [], "m0": 2, "ranks": []}, {"edges": [], "m0": 0, "ranks": []}]
     return out
@@ -751,6 +951,88 @@ def _random_graph(rng, nmax=12):
     return _canon_edges(es)
 
 
+def _big_graph(rng):
+    """checker-only stream, 25-80 vertices (a share up to 160), sparse, labels unrelated to the structure; two kinds:
+    'mixed' = a few groups of overlapping planted cliques (chains sharing a vertex, an edge or a triangle, different
+    sizes), separate planted cliques, a sprinkling of random edges / a random tree / a sparse G(n,p);
+    'archipelago' = MANY separate cliques (all taken whole by the score-zero pass) around one to three small groups of
+    edge-sharing cliques of different sizes: the clique list is long, nearly all of it is dropped at once and the few
+    survivors sit at large, spread-out positions (position sets of small ints iterate in hash-slot order, not
+    ascending, once a position exceeds the set's table: > 8 with <= 4 survivors, > 32 with <= 18)"""
+    arch = rng.random() < 0.5
+    n = rng.randint(25, 80) if not (arch and rng.random() < 0.25) else rng.randint(81, 160)
+    verts = list(range(n))
+    rng.shuffle(verts)
+    pos = 0
+    es = []
+
+    def take(k):
+        nonlocal pos
+        vs = verts[pos:pos + k]
+        pos += k
+        return vs
+
+    if arch:
+        sep = rng.choice([[4, 5, 6], [5, 6], [3, 4, 5, 6], [3], [3, 4], [4, 5], [4], [3, 3, 3, 7, 8]])
+        small = [k for k in (3, 4, 5, 6) if k <= max(sep)]
+        for _ in range(rng.choice([1, 1, 2, 2, 3])):
+            prev = take(rng.choice(small))
+            es += _kn(prev)
+            for _ in range(rng.choice([1, 1, 1, 2])):
+                b = rng.choice(small)
+                sh = rng.randint(2, max(2, min(len(prev), b) - 1))
+                cur = rng.sample(prev, sh) + take(b - sh + (1 if b == sh else 0))
+                es += _kn(cur)
+                prev = cur
+        while pos + max(sep) <= n:
+            es += _kn(take(rng.choice(sep)))
+        if rng.random() < 0.3:
+            for _ in range(rng.randint(1, 4)):
+                a, b = rng.sample(range(n), 2)
+                es.append((a, b))
+        return _canon_edges(es)
+    sizes = rng.choice([[3, 4, 4, 5, 5, 6], [4, 5, 6], [3, 4, 5, 6, 7, 8], [2, 3, 4], [5, 6]])
+    for _ in range(rng.choice([1, 1, 2, 2, 3, 4, 6])):
+        chain = rng.choice([2, 2, 2, 3, 4])
+        a = rng.choice(sizes)
+        if pos + a > n:
+            break
+        prev = take(a)
+        es += _kn(prev)
+        for _ in range(chain - 1):
+            b = rng.choice(sizes)
+            sh = rng.randint(1, max(1, min(len(prev), b) - 1))
+            if pos + b - sh > n:
+                break
+            cur = rng.sample(prev, sh) + take(b - sh)
+            es += _kn(cur)
+            prev = cur
+    fill = rng.choice([0.4, 0.7, 1.0, 1.0])
+    while pos + 8 <= n * fill:
+        es += _kn(take(rng.choice(sizes + [2, 3])))
+    kind = rng.choice(["none", "none", "few", "few", "tree", "gnp"])
+    if kind == "few":
+        for _ in range(rng.randint(1, max(1, n // 6))):
+            a, b = rng.sample(range(n), 2)
+            es.append((a, b))
+    elif kind == "tree":
+        vs = rng.sample(range(n), rng.randint(2, n))
+        for i in range(1, len(vs)):
+            es.append((vs[rng.randrange(i)], vs[i]))
+    elif kind == "gnp":
+        c = rng.choice([0.5, 1.0, 2.0, 3.0])
+        es += [(i, j) for i in range(n) for j in range(i + 1, n) if rng.random() < c / n]
+    return _canon_edges(es)
+
+
+def _clique_number_nx(es):
+    """size of the largest maximal clique (networkx on a private graph; generator side only)"""
+    import networkx as nx
+    g = nx.Graph()
+    g.add_edges_from(es)
+    return max((len(c) for c in nx.find_cliques(g)), default=0)
+
+
 def _clique_number(es):
     vs = sorted({v for e in es for v in e})
     adj = {v: set() for v in vs}
@@ -778,6 +1060,18 @@ def _small_exhaustive(pairs, m0s):
 
 
 def generate(rng, tier):
+    # every stream of fresh-object cases: half the cases reach the object through another public construction path
+    # than one add_edges_from (a mixture of paths over chunks of the edge list, edges handed over twice)
+    brng = __import__("random").Random(rng.getrandbits(64))
+    for c in _generate(rng, tier):
+        if c.get("mode") not in ("float", "hist") and c["edges"] and "build" not in c and brng.random() < 0.5:
+            c["build"] = _pick_build(brng)
+            if brng.random() < 0.2:
+                c["dup"] = 1
+        yield c
+
+
+def _generate(rng, tier):
     yield {"edges": [], "m0": 2, "mode": "float"}
     # 1. all graphs on <= 5 labelled vertices x m0 x every tie-break sequence (quick: a seeded sample)
     frac = 0.25 if tier == "quick" else 1.0
@@ -811,6 +1105,17 @@ def generate(rng, tier):
         es += [(rng.randrange(n), n + k) for k in range(rng.randint(0, 3))]
         m0 = rng.choice([2, 3, 4, n - 2, n - 1, n, n + 1, 9, 16])
         yield _case(es, m0, [rng.randint(0, 40) for _ in range(rng.randint(0, 12))], rng=rng if rng.random() < 0.5 else None)
+    # 3c. CHECKER-ONLY stream: sparse graphs with 25-80 vertices (planted overlapping and separate cliques), m0 in
+    #     2..6 (sometimes up to 9), several tie-break schedules per graph; judged by c09_check_cover without the model
+    for _ in range(70 if tier == "quick" else 700):
+        es = _big_graph(rng)
+        if not es:
+            continue
+        w = _clique_number_nx(es)
+        for k in range(3):
+            m0 = max(2, rng.choice([2, 3, 4, 5, 6, w - 1, w, w, w + 1, rng.randint(2, 9)]))
+            ranks = [] if k == 0 and rng.random() < 0.5 else [rng.randint(0, 11) for _ in range(rng.randint(1, 40))]
+            yield _case(es, m0, ranks, mode="big", rng=rng if rng.random() < 0.5 else None)
     # 4. histories of calls on the same objects
     for _ in range(150 if tier == "quick" else 1500):
         yield _history(rng)
@@ -835,12 +1140,38 @@ def shrink(case):
         for i, x in enumerate(st):
             if x[0] == "add" and len(x[2]) > 1:
                 for k in range(len(x[2])):
-                    yield {"mode": "hist", "steps": st[:i] + [["add", x[1], x[2][:k] + x[2][k + 1:]]] + st[i + 1:]}
+                    yield {"mode": "hist", "steps": st[:i] + [["add", x[1], x[2][:k] + x[2][k + 1:]] + x[3:]] + st[i + 1:]}
+            if x[0] in ("add", "setg") and len(x) > 3 and x[3] not in (0, "aef"):
+                yield {"mode": "hist", "steps": st[:i] + [x[:3]] + st[i + 1:]}
             if x[0] == "eecc" and x[2]:
                 yield {"mode": "hist", "steps": st[:i] + [["eecc", x[1], []]] + st[i + 1:]}
         return
     es = case["edges"]
     vs = sorted({v for e in es for v in e})
+    if mode == "big" and len(vs) > 12:
+        # whole connected components first (the graphs of this stream have many)
+        comp = {v: v for v in vs}
+
+        def find(v):
+            while comp[v] != v:
+                comp[v] = comp[comp[v]]
+                v = comp[v]
+            return v
+        for a, b in es:
+            comp[find(a)] = find(b)
+        roots = sorted({find(v) for v in vs})
+        if len(roots) > 1:
+            for r in roots:
+                yield dict(case, edges=[e for e in es if find(e[0]) != r])
+    if case.get("dup"):
+        yield {k: v for k, v in case.items() if k != "dup"}
+    if case.get("build"):
+        yield {k: v for k, v in case.items() if k != "build"}
+        if len(case["build"]) > 1:
+            for b in case["build"]:
+                yield dict(case, build=[b])
+    if case.get("labels"):
+        yield {k: v for k, v in case.items() if k != "labels"}
     for v in vs:
         sub = [e for e in es if v not in e]
         if sub:
@@ -851,7 +1182,7 @@ def shrink(case):
     if es != [list(e) for e in _canon_edges(es)]:
         yield dict(case, edges=[list(e) for e in _canon_edges(es)])
     if mode == "all":
-        yield {"edges": es, "m0": case["m0"], "ranks": []}
+        yield {k: v for k, v in dict(case, ranks=[]).items() if k not in ("mode", "cap")}
     else:
         rk = case.get("ranks", [])
         if rk:
@@ -868,7 +1199,8 @@ def describe(case, impl_obs):
         return {"mode": "hist", "steps": case["steps"][:14],
                 "observed": [ob if not isinstance(ob, dict) else ob["cover"]
                              for ob in (impl_obs["steps"] if isinstance(impl_obs, dict) else [])][:14]}
-    d = {"edges": case["edges"], "m0": case["m0"], "mode": mode, "ranks": case.get("ranks")}
+    d = {"edges": case["edges"], "m0": case["m0"], "mode": mode, "ranks": case.get("ranks"),
+         "construction_paths": case.get("build", ["aef"])}
     if _is_exc(impl_obs):
         d["impl"] = impl_obs
     elif mode == "all":
@@ -881,25 +1213,39 @@ def describe(case, impl_obs):
 
 
 def histogram(cases):
-    h = {"cases": len(cases), "mode_all": 0, "mode_one": 0, "histories": 0, "history_steps": 0, "malformed": 0,
-         "scrambled_edge_order": 0}
-    byn, bym = {}, {}
+    h = {"cases": len(cases), "mode_all": 0, "mode_one": 0, "mode_big_checker_only": 0, "histories": 0,
+         "history_steps": 0, "malformed": 0, "scrambled_edge_order": 0, "edges_handed_twice": 0}
+    byn, bym, byp = {}, {}, {}
+    h["construction_paths"] = byp
     for c in cases:
         if c.get("mode") == "float":
             continue
         if c.get("mode") == "hist":
             h["histories"] += 1
             h["history_steps"] += len(c["steps"])
+            for st in c["steps"]:
+                if st[0] in ("add", "setg"):
+                    k = "hist:" + ("setg" if st[0] == "setg" else (st[3] if len(st) > 3 else "aef"))
+                    byp[k] = byp.get(k, 0) + 1
             continue
+        for b in c.get("build", ["aef"]):
+            byp[b] = byp.get(b, 0) + 1
+        if len(c.get("build", [])) > 1:
+            byp["mixture"] = byp.get("mixture", 0) + 1
+        h["edges_handed_twice"] += int(bool(c.get("dup")))
+        if c.get("mode") == "big":
+            h["mode_big_checker_only"] += 1
         if c["m0"] < 2 or not c["edges"]:
             h["malformed"] += 1
         if c["edges"] != [list(e) for e in _canon_edges(c["edges"])]:
             h["scrambled_edge_order"] += 1
-        h["mode_all" if c.get("mode") == "all" else "mode_one"] += 1
+        if c.get("mode") != "big":
+            h["mode_all" if c.get("mode") == "all" else "mode_one"] += 1
         n = _nverts(c["edges"])
+        n = n if n <= 12 else f"{n // 10 * 10}-{n // 10 * 10 + 9}"
         byn[n] = byn.get(n, 0) + 1
         bym[c["m0"]] = bym.get(c["m0"], 0) + 1
-    h["vertices"] = {str(k): v for k, v in sorted(byn.items())}
+    h["vertices"] = {str(k): v for k, v in sorted(byn.items(), key=lambda kv: (len(str(kv[0])), str(kv[0])))}
     h["m0"] = {str(k): v for k, v in sorted(bym.items())}
     return h
 
